@@ -40,6 +40,8 @@ type Engine struct {
 	mu         sync.Mutex
 	unresolved map[string]int
 	fieldMaps  []string
+	roGlobals    map[*ssa.Global]bool // package-level variables that are only written by package initialisation
+	nonNilGlobal map[*ssa.Global]bool // ... and are initialised with errors.New / fmt.Errorf
 	knownFailing map[string]bool // "<function>/post:<tag>" of clauses listed as known findings
 	safeOn     bool
 	loadErrs   []string
@@ -78,6 +80,46 @@ func LoadEngine(repo string) (*Engine, error) {
 	for i, p := range pkgs {
 		e.pkgs[p.Name] = p
 		e.spkgs[p.Name] = spkgs[i]
+	}
+	e.roGlobals = map[*ssa.Global]bool{}
+	e.nonNilGlobal = map[*ssa.Global]bool{}
+	written := map[*ssa.Global]bool{}
+	for fn := range ssautil.AllFunctions(prog) {
+		if !isInRepo(fn) {
+			continue
+		}
+		isInit := fn.Name() == "init" || strings.HasPrefix(fn.Name(), "init#")
+		for _, b := range fn.Blocks {
+			for _, in := range b.Instrs {
+				st, ok := in.(*ssa.Store)
+				if !ok {
+					continue
+				}
+				g, ok := st.Addr.(*ssa.Global)
+				if !ok {
+					continue
+				}
+				if !isInit {
+					written[g] = true
+					continue
+				}
+				if c, ok := st.Val.(*ssa.Call); ok {
+					if f, ok := c.Call.Value.(*ssa.Function); ok && (fnName(f) == "errors.New" || fnName(f) == "fmt.Errorf") {
+						e.nonNilGlobal[g] = true
+					}
+				}
+			}
+		}
+	}
+	for _, sp := range spkgs {
+		if sp == nil {
+			continue
+		}
+		for _, m := range sp.Members {
+			if g, ok := m.(*ssa.Global); ok && !written[g] && strings.HasPrefix(sp.Pkg.Path(), strings.TrimSuffix(modPath, "/")) {
+				e.roGlobals[g] = true
+			}
+		}
 	}
 	for fn := range ssautil.AllFunctions(prog) {
 		if fn.Synthetic != "" && fn.Blocks == nil {
